@@ -72,13 +72,29 @@ def run_check(pid):
 def main():
     only = sys.argv[1:]
     patches = sorted(glob.glob('/tmp/C??_m?.patch')) + sorted(glob.glob('/tmp/R??_n?.patch')) + sorted(glob.glob('/tmp/S??_n?.patch')) + sorted(glob.glob('/tmp/T??_n?.patch'))
+    # changes already kept under seeded/<name>/ can be re-run without the sub-agents' files in /tmp
+    have = set(os.path.basename(p)[:-6] for p in patches)
+    for d in sorted(glob.glob('/verif/seeded/*/patch.diff')):
+        nm = os.path.basename(os.path.dirname(d))
+        if nm not in have:
+            stage = '/tmp/seed_stage'
+            os.makedirs(stage, exist_ok=True)
+            shutil.copy(d, os.path.join(stage, nm + '.patch'))
+            for f in glob.glob(os.path.join(os.path.dirname(d), nm + '_demo.*')):
+                shutil.copy(f, stage)
+            try:
+                m = json.load(open(os.path.join(os.path.dirname(d), 'meta.json')))
+                json.dump({'property': m.get('property'), 'summary': m.get('summary'), 'needs': m.get('needs')}, open(os.path.join(stage, nm + '.json'), 'w'), ensure_ascii=False)
+            except Exception:
+                pass
+            patches.append(os.path.join(stage, nm + '.patch'))
     for p in patches:
         name = os.path.basename(p)[:-6]
         pid = name[:3]
         if pid[0] in 'RST':
             # area-based round: the property is named in the json record
             try:
-                pid = json.load(open('/tmp/' + name + '.json'))['property'].strip()[:3]
+                pid = json.load(open(os.path.join(os.path.dirname(p), name + '.json')))['property'].strip()[:3]
             except Exception:
                 pid = 'C07'
         if only and name not in only and pid not in only and name[:3] not in only:
@@ -86,7 +102,7 @@ def main():
         dest = os.path.join('/verif/seeded', name)
         if os.path.exists(os.path.join(dest, 'meta.json')) and not only:
             continue
-        base = '/tmp/' + name
+        base = os.path.join(os.path.dirname(p), name)
         meta = {'id': name, 'property': pid}
         try:
             meta.update({k: v for k, v in json.load(open(base + '.json')).items() if k in ('summary', 'needs')})
